@@ -30,6 +30,15 @@ SEEDS = [
     ("{a: {b: {c: 1}}, d: 2}", [("TRAVERSE",), ("SEARCH", False, "=~", ".", ".")]),
     ("[[1, 2], [3]]", [("ALL",), ("INDEX", 0)]), ("{a: 1}", []),
     ("[{a: 1, b: 2}, {a: 3}]", [("KEY", "a")]), ("{x: [a, b], y: [a]}", [("TRAVERSE",), ("INDEX", 0)]),
+    ("{l: [a, b, c, d, e]}", [("KEY", "l"), ("SLICE", 1, 3)]), ("{l: [a, b, c, d, e]}", [("KEY", "l"), ("SLICE", -3, -1)]),
+    ("{p: {1: one, '1': uno, 2: two, keep: me}}", [("KEY", "p"), ("ALL",)]),
+    ("{defaults: &defaults {a: 1}, jobs: {defaults: 2, k: 3}}", [("KEY", "jobs"), ("KEY", "defaults")]),
+    ("{defaults: &defaults {a: 1}, k: 3}", [("KEY", "defaults")]),
+    ("{d: &D {r: 2.5, n: x}, s: {<<: *D, p: 1}}", [("KEY", "d"), ("KEY", "r")]),
+    ("{d: &D {r: 2.5, n: x}, s: {<<: *D, p: 1}}", [("KEY", "s"), ("KEY", "p")]),
+    ("{defaults: &D1 {name: 'x'}, base: &base {tags: true}, svc0: {<<: *base, base: []}, svc2: {id: 1, base: 0, <<: *D1}}",
+     [("TRAVERSE",), ("KEY", "base")]),
+    ("{common: &common {name: abc, port: [1, 2]}, svc0: {id: x y, port: null, <<: *common}}", [("TRAVERSE",), ("KEY", "port")]),
 ]
 COLLECTOR_SEEDS = [
     ("[a, b, c]", "([0])+([0])", [(0,)]), ("[a, b, c]", "([2])+([0])", [(0,), (2,)]),
@@ -67,6 +76,52 @@ def collector_case(ctx, doc, path, locs):
             "case": case, "summary": "differs from model at %r ; after=%r" % (df[:3], yp.dump(data)[:120])})
 
 
+def merge_ref_case(ctx, rng):
+    """`hash[&anchor]` names a YAML Merge Key reference: deleting it removes that reference and nothing else."""
+    from vf.core.yp import Processor, LOG, YAMLPathException
+    from vf.model import edits as E
+    text = gd.gen_merge_doc(rng)
+    data = yp.to_block(yp.load(text))
+    # one reference per inheritor: with several, which of two equal sources goes and what the mapping then
+    # inherits from the others is ruamel bookkeeping the property does not speak about
+    cands = [(i, k, v) for i, (k, v) in enumerate(data.items()) if isinstance(v, dict) and len(yp.merge_refs(v)) == 1]
+    if not cands:
+        return
+    i, k, v = rng.choice(cands)
+    an = rng.choice(yp.merge_refs(v))
+    src = next(m for (_p, m) in v.merge if yp.anchor_of(m) == an)
+    if any(kk in src and src[kk] == vv for kk, vv in yp.own_items(v)):
+        ctx.count("merge_ref_own_value_equals_inherited_skipped")   # unspecified: such own keys are removed too
+        return
+    path = "%s[&%s]" % (k, an)
+    img0 = E.image(data)
+    expected = E.image(data)
+    node = E.get(expected, (i,))
+    node["merge"] = [a for a in node["merge"] if a != an]
+    if not node["merge"]:
+        del node["merge"]
+    case = {"doc": text, "path": path, "segs": None, "history": []}
+    ctx.evaluations += 1
+    ctx.count("delete_merge_reference_cases")
+    ctx.mark_nontrivial([text, path])
+    try:
+        for _ in Processor(LOG, data).delete_nodes(path):
+            pass
+    except YAMLPathException as e:
+        ctx.violation("delete/merge-ref/refused/%s" % type(e).__name__, {"case": case, "summary": str(e)[:150]})
+        return
+    except Exception as e:
+        ctx.violation("delete/merge-ref/crash/%s@%s" % (type(e).__name__, ES.where(e)), {"case": case, "summary": repr(e)[:150]})
+        return
+    actual = E.image(data)
+    if actual != expected:
+        df = E.diff(expected, actual)
+        ctx.violation("delete/merge-ref/" + "+".join(sorted({m.split()[0] for _l, m in df})), {
+            "case": case, "summary": "differs from model at %r ; after=%r" % (df[:3], yp.dump(data)[:200])})
+        return
+    ES.reload_check(ctx, data, case, "delete/merge-ref", reload_claimed=False)
+
+
 def run_shard(ctx):
     rng = ctx.rng
     if ctx.shard == 0:
@@ -78,10 +133,18 @@ def run_shard(ctx):
     want = SIZES[ctx.tier] // ctx.nshards
     n = 0
     while ctx.counters.get("delete_steps", 0) < want:
-        if rng.random() < 0.1:
+        x = rng.random()
+        if x < 0.03:
+            merge_ref_case(ctx, rng)
+            continue
+        if x < 0.1:
             text = rng.choice(gd.HOSTILE)
-            if "<<" in text:
-                continue
+        elif x < 0.25:
+            text = gd.gen_merge_doc(rng)          # `<<` merge keys, keys spelled like mapping anchors
+            ctx.count("docs_with_merge_keys")
+        elif x < 0.35:
+            text, _ = gd.gen_doc(rng, "N", keys=gd.KEYS_TWIN)      # sibling keys 1 / '1', 1.5 / '1.5', true / 'true'
+            ctx.count("docs_with_twin_keys")
         else:
             text, _ = gd.gen_doc(rng, rng.choice(["N", "U", "A"]))
         try:
@@ -90,6 +153,8 @@ def run_shard(ctx):
             continue
         if not isinstance(data, (dict, list)) or yp.is_set(data):
             continue
+        if "<<" in text:
+            yp.to_block(data)
         if not ES.roundtrips(data):
             ctx.count("doc_does_not_roundtrip_unedited_skipped")
             continue
@@ -120,9 +185,7 @@ def run_shard(ctx):
                                        [("ALL",), ("TRAVERSE",)]])
                 else:
                     segs = gp.PathGen(rng, vocab, hslice=False).path()
-                    if any(s[0] in ("SLICE", "HSLICE") for s in segs):
-                        continue
-                if ES.step_delete(ctx, data, text, segs, "delete", hist):
+                if ES.step_delete(ctx, data, text, segs, "delete", hist, reload_claimed=False):
                     hist.append(["delete", gp.render(segs, ".")])
                     ok = True
                     break
